@@ -225,7 +225,7 @@ struct Run{
       Json cfg=Json::object(); cfg["nx"]=(int)nx; cfg["nsun"]=(int)nsun; cfg["nrhos"]=(int)nrhos; cfg["nscalars"]=(int)nsc; cfg["t0"]=t_ini; cfg["seed"]=(long long)(opiseed()); cfg["grid"]="lin"; cfg["xa"]=1.0; cfg["xb"]=2.0;
       Json ro=Json::object(); ro["cfg"]=cfg; op_reini(ro); return;
     }
-    if(rc!=CALL_OK && !sc.adaptive && sc.abs<1e-6 && g_what.find("(failure)")!=std::string::npos){
+    if(rc!=CALL_OK && !sc.adaptive && sc.abs<0.05 && g_what.find("(failure)")!=std::string::npos){
       // fixed stepping whose step misses the controller's tight bounds: GSL reports failure and Evolve must throw (it did); resynchronise
       c.ctr->add("probe_fixed_step_rejected_by_controller");
       Json cfg=Json::object(); cfg["nx"]=(int)nx; cfg["nsun"]=(int)nsun; cfg["nrhos"]=(int)nrhos; cfg["nscalars"]=(int)nsc; cfg["t0"]=t_ini; cfg["seed"]=(long long)(opiseed()); cfg["grid"]="lin"; cfg["xa"]=1.0; cfg["xb"]=2.0;
@@ -238,7 +238,7 @@ struct Run{
     }
     if(rc!=CALL_OK){ c.violation(evprop,"evolve:threw",sc.name,"Evolve threw \""+g_what+"\""); return; }
     if(numerics && c.rhs_evals>=2 && c.distinct_inputs>=2) nontrivial=true;
-    if(numerics && dt>0 && !sc.adaptive && sc.abs>=1e-6 && c.napply!=(long)sc.nsteps){
+    if(numerics && dt>0 && !sc.adaptive && sc.abs>=0.05 && c.napply!=(long)sc.nsteps){
       char b[160]; snprintf(b,sizeof b,"fixed stepping was configured with %u steps but the stepper was applied %ld times (mode or step count lost?)",sc.nsteps,c.napply);
       c.violation(c.moved_in_run?"C10":evprop,"evolve:step-count",sc.name,b); return; }
     if(numerics && dt>0 && sc.adaptive && !sc.is_sim() && sc.nsteps>=40 && c.napply==(long)sc.nsteps && c.rejections_fired==0 && c.failures_fired==0) c.ctr->add("probe_adaptive_run_with_exactly_nsteps_applies");
